@@ -6,17 +6,21 @@ from ..engine import monitors, suite
 from ..runner import Env, Outcome
 
 THEOREMS = ["C05_source_shape", "C05_attempt_budget", "C05_non_retryable_once", "C05_delay_budget", "C05_retry_requeue",
-            "C05_failure_report", "C05_retry_number", "C05_first_attempt"]
+            "C05_failure_report", "C05_retry_number", "C05_first_attempt", "C05_wait_replay_is_the_suspended_attempt",
+            "C05_wait_replay_keeps_attempts", "C05_failure_after_wait_counts_on", "C05_unrepaired_wait_replay_restarts_count"]
 LEAN_TARGETS = ["WfProps.C05"]
 EXPLANATION = (
     "Policy layer (bodies translated from retry_policy.py on every run): stop_after_attempt(n) => exactly max(n,1) "
     "executions for every retryable error, wait strategy and clock; non-retryable => 1; stop_after_delay(d) retries iff "
     "elapsed < d. Engine layer (reducer model): the policy is asked with failures = attempts+1 and elapsed = "
     "failed_at - first_attempt_at; a granted retry is re-queued with attempts+1, the same first_attempt_at and the "
-    "exception; started attempts carry retry_number 0,1,2,...; failure events report attempts+1 and that elapsed. "
+    "exception; started attempts carry retry_number 0,1,2,...; failure events report attempts+1 and that elapsed; an "
+    "invocation that suspends in wait_for_event is replayed with the attempt record it had (same retry_number, "
+    "first_attempt_at, last exception) - the unrepaired replay restarted at 0 (kept as a refuted variant). "
     "Tie: policy correspondence (exact rationals) + reducer/runner correspondence with the policy's decisions as "
     "oracle. Search: executions per lineage vs budget, retry_info numbers/exceptions, reported attempts and elapsed "
-    "vs virtual time actually elapsed, stop_after_delay against really-elapsed time."
+    "vs virtual time actually elapsed, stop_after_delay against really-elapsed time; on waiting steps: retry_number = "
+    "failed executions of the invocation so far across suspensions, reported attempts count failures before the wait."
 )
 ASSUMPTIONS = suite.ENGINE_ASSUMPTIONS + [
     "first_attempt_at (adapter.get_now) and failed_at (time.time in the step wrapper) are one clock: true on BasicRuntime since fix 1b4aba5 and on the DBOS adapter (epoch seconds); the harness virtualises both",
@@ -32,4 +36,6 @@ def run(env: Env) -> Outcome:
     suite.direct_corr(env, out, env.budget(2000, 40000))
     suite.live_runs(env, out, env.budget(200, 4000), [monitors.mon_c05], extra_specs=suite.load_corpus("C05"))
     suite.live_runs(env, out, env.budget(300, 6000), [monitors.mon_c05], gen_kwargs={"family": "retry"})
+    # retried invocations that suspend in wait_for_event (before / after / around the wait), also under a catch_error handler
+    suite.live_runs(env, out, env.budget(120, 2400), [monitors.mon_c05], gen_kwargs={"family": "wait_retry"})
     return out
